@@ -46,19 +46,29 @@ def args_from_input(input: ArgsInput) -> Args:
     else:
         var_keyword = None
 
-    return Args(
+    args = Args(
         positional_only=positional_only,
         positional_or_keyword=positional_or_keyword,
         var_positional=var_positional,
         keyword_only=keyword_only,
         var_keyword=var_keyword,
     )
+    # The parameters are kept by name, so they have to be distinct to be preserved
+    n_names = (
+        argcount
+        + kwonlyargcount
+        + (var_positional is not None)
+        + (var_keyword is not None)
+    )
+    if len(args.parameters) != n_names:
+        raise ValueError("Parameter names are missing or not unique")
+    return args
 
 
 def args_to_input(args: Args, flags_data: FlagsData) -> ArgsInput:
-    if args.var_positional:
+    if args.var_positional is not None:
         flags_data |= {"VARARGS"}
-    if args.var_keyword:
+    if args.var_keyword is not None:
         flags_data |= {"VARKEYWORDS"}
     return ArgsInput(
         argcount=len(args.positional_only) + len(args.positional_or_keyword),
@@ -97,13 +107,13 @@ def args_to_parameters(args: Args) -> OrderedDict[str, _ParameterKind]:
             ),
             *(
                 ((args.var_positional, _ParameterKind.VAR_POSITIONAL),)
-                if args.var_positional
+                if args.var_positional is not None
                 else ()
             ),
             *((n, _ParameterKind.KEYWORD_ONLY) for n in args.keyword_only),
             *(
                 ((args.var_keyword, _ParameterKind.VAR_KEYWORD),)
-                if args.var_keyword
+                if args.var_keyword is not None
                 else ()
             ),
         )
